@@ -144,6 +144,9 @@ impl Memtable {
     /// Inserts an item into the memtable
     #[doc(hidden)]
     pub fn insert(&self, item: InternalValue) -> (u64, u64) {
+        #[cfg(feature = "verif")]
+        crate::verif::yield_point("memtable:insert");
+
         #[expect(
             clippy::expect_used,
             reason = "keys are limited to 16-bit length + values are limited to 32-bit length"
